@@ -517,6 +517,13 @@ where
                     self.mode.set(InsertionMode::BeforeHtml);
                     return tokenizer::TokenSinkResult::Continue;
                 } else {
+                    if self.mode.get() == InsertionMode::InTableText {
+                        // A DOCTYPE is "anything else" in the "in table text" mode: the pending table
+                        // character tokens are inserted and the original insertion mode is restored
+                        // before the token is ignored there.
+                        let orig_mode = self.flush_pending_table_text();
+                        self.mode.set(orig_mode);
+                    }
                     self.sink.parse_error(if self.opts.exact_errors {
                         Cow::from(format!("DOCTYPE in insertion mode {:?}", self.mode.get()))
                     } else {
